@@ -5,6 +5,7 @@ import (
 	"encoding/json"
 	"fmt"
 	"os"
+	"os/exec"
 	"path/filepath"
 	"regexp"
 	"sort"
@@ -205,7 +206,7 @@ func RunCheck(ctx *Ctx, prepare func(*Ctx) (*Prepared, error), level string) int
 			qUnknown += s.k
 			qErr += s.e
 		}
-		solverTime += r.Solver.Time + r.Solver2.Time
+		solverTime += r.Solver.Time + r.Solver2.Time + r.Solver.ValuesTime + r.Solver2.ValuesTime
 		if r.Solver.MaxQuery > solverMax {
 			solverMax = r.Solver.MaxQuery
 		}
@@ -578,6 +579,7 @@ func RunCheck(ctx *Ctx, prepare func(*Ctx) (*Prepared, error), level string) int
 		"queries":                       map[string]int{"total": qTotal, "sat": qSat, "unsat": qUnsat, "unknown": qUnknown, "errors": qErr},
 		"solver_time_s":                 solverTime.Seconds(),
 		"solver_max_query_s":            solverMax.Seconds(),
+		"solvers":                       solverNames(),
 		"not_analysable":                prep.NotAnalysable,
 		"known_findings_matched":        knownMatched,
 		"assertion_ids":                 idList,
@@ -718,4 +720,29 @@ func pkgSample(pk string) bool {
 		h = -h
 	}
 	return h%3 == 0
+}
+
+// solverNames reports the solver back ends the workers use.
+func solverNames() []string {
+	main := os.Getenv("GOSYM_SOLVER")
+	if main == "" {
+		main = "z3-new"
+		if _, err := exec.LookPath("z3-new"); err != nil {
+			main = "z3"
+		}
+	}
+	ver := func(bin string) string {
+		out, err := exec.Command(bin, "--version").Output()
+		if err != nil {
+			return bin
+		}
+		l := strings.SplitN(strings.TrimSpace(string(out)), "\n", 2)[0]
+		return bin + ": " + l
+	}
+	bin := map[string]string{"z3": "/usr/bin/z3", "z3-new": "z3-new"}[main]
+	if bin == "" {
+		bin = main
+	}
+	return []string{ver(bin) + " (-in, incremental; path conditions and assertions)",
+		ver("cvc5") + " (--incremental --solve-bv-as-int=sum; path conditions with products, division or remainder)"}
 }
